@@ -528,6 +528,10 @@ fn pre_states() -> Vec<Pre> {
                 Symlink("/😀".into(), "/a".into()),
                 Symlink("/a/:".into(), "/a/a".into()),
                 Symlink("/{".into(), "/}".into()),
+                // a link cycle that crosses subtrees: neither link points at one of its own ancestors
+                MkdirP("/b".into()),
+                Symlink("/a/é/x".into(), "/b".into()),
+                Symlink("/b/y".into(), "/a/é".into()),
                 SetCwd("/a".into()),
             ],
         ),
